@@ -204,7 +204,7 @@ fn vie_decode_single<const N: usize>(s: VarIntStrategy, signed: bool) {
         }
         forget(r);
     }
-    zcover!(ok, "some input decodes");
+    zcover!(ok, "opt: some input decodes (no input of some shapes does)");
     zcover!(!ok, "some input is rejected");
 }
 macro_rules! c15_vie_single {
@@ -292,21 +292,21 @@ macro_rules! c15_alloc_vie_seq {
 }
 c15_vie_seq!(c15_vie_leb128_seq_u64_n3, quick, 5, Leb128, false, 3);
 c15_vie_seq!(c15_vie_leb128_seq_i64_n3, thorough, 5, Leb128, true, 3);
-c15_vie_seq!(c15_vie_zigzag_seq_i64_n3, thorough, 5, Zigzag, true, 3);
+c15_vie_seq!(c15_vie_zigzag_seq_i64_n3, probe, 5, Zigzag, true, 3);
 c15_vie_seq!(c15_vie_delta_seq_u64_n3, quick, 5, Delta, false, 3);
 c15_vie_seq!(c15_vie_delta_seq_i64_n3, thorough, 5, Delta, true, 3);
 c15_vie_seq!(c15_vie_group_seq_u64_n3, quick, 5, GroupVarint, false, 3);
-c15_vie_seq!(c15_vie_group_seq_u64_n6, thorough, 8, GroupVarint, false, 6);
+c15_vie_seq!(c15_vie_group_seq_u64_n6, probe, 8, GroupVarint, false, 6);
 c15_vie_seq!(c15_vie_group_seq_i64_n3, thorough, 5, GroupVarint, true, 3);
 c15_vie_seq!(c15_vie_prefixfree_seq_u64_n3, quick, 5, PrefixFree, false, 3);
 c15_vie_seq!(c15_vie_prefixfree_seq_i64_n4, thorough, 6, PrefixFree, true, 4);
 c15_vie_seq!(c15_vie_compact_seq_u64_n3, thorough, 5, Compact, false, 3);
-c15_vie_seq!(c15_vie_compact_seq_i64_n3, thorough, 5, Compact, true, 3);
+c15_vie_seq!(c15_vie_compact_seq_i64_n3, probe, 5, Compact, true, 3);
 c15_vie_seq!(c15_vie_simd_seq_u64_n3, thorough, 5, Simd, false, 3);
-c15_vie_seq!(c15_vie_simd_seq_i64_n3, thorough, 5, Simd, true, 3);
+c15_vie_seq!(c15_vie_simd_seq_i64_n3, probe, 5, Simd, true, 3);
 // 10-11 bytes: the count can reach 2^63 and beyond (Vec capacity overflow), values reach u64::MAX
 c15_vie_seq!(c15_vie_leb128_seq_u64_n10, thorough, 12, Leb128, false, 10);
-c15_vie_seq!(c15_vie_group_seq_u64_n10, thorough, 12, GroupVarint, false, 10);
+c15_vie_seq!(c15_vie_group_seq_u64_n10, probe, 12, GroupVarint, false, 10);
 c15_vie_seq!(c15_vie_prefixfree_seq_u64_n10, thorough, 12, PrefixFree, false, 10);
 c15_vie_seq!(c15_vie_delta_seq_i64_n12, thorough, 14, Delta, true, 12);
 c15_alloc_vie_seq!(c15_alloc_vie_leb128_seq_u64_n3, quick, 5, Leb128, false, 3);
@@ -414,7 +414,7 @@ fn base64_any<const N: usize>(adaptive: bool) {
         }
         forget(r);
     }
-    zcover!(ok, "some input decodes");
+    zcover!(ok, "opt: some input decodes (no input of some shapes does)");
     zcover!(!ok, "some input is rejected");
 }
 macro_rules! c15_base64 {
@@ -547,9 +547,9 @@ macro_rules! c15_decode_matches {
         }
     };
 }
-c15_decode_matches!(c15_decode_matches_n2, thorough, 8, 2);
-c15_decode_matches!(c15_decode_matches_n3, thorough, 8, 3);
-c15_decode_matches!(c15_decode_matches_n7, thorough, 10, 7);
+c15_decode_matches!(c15_decode_matches_n2, probe, 8, 2);
+c15_decode_matches!(c15_decode_matches_n3, probe, 8, 3);
+c15_decode_matches!(c15_decode_matches_n7, probe, 10, 7);
 
 // ---------------------------------------------------------------------------------------------
 // length-prefixed bytes / strings (src/io/data_input.rs default methods over SliceDataInput)
@@ -610,7 +610,7 @@ macro_rules! c15_alloc_dataio_prefixed {
 }
 c15_dataio_prefixed!(c15_dataio_bytes_n3, quick, 12, false, 3);
 c15_dataio_prefixed!(c15_dataio_bytes_n10, quick, 12, false, 10);
-c15_dataio_prefixed!(c15_dataio_string_n3, thorough, 12, true, 3);
+c15_dataio_prefixed!(c15_dataio_string_n3, probe, 12, true, 3);
 c15_alloc_dataio_prefixed!(c15_alloc_dataio_bytes_n3, quick, 12, false, 3);
 
 // ---------------------------------------------------------------------------------------------
@@ -749,12 +749,12 @@ macro_rules! c15_smartptr {
 c15_smartptr!(c15_smartptr_backref_n6, quick, 8, Some(2), "every 6-byte string whose first byte is the back-reference marker 2 (any id, any tail)");
 c15_smartptr!(c15_smartptr_null_n6, quick, 8, Some(0), "every 6-byte string whose first byte is the null marker 0");
 c15_smartptr!(c15_smartptr_badmarker_n6, thorough, 8, Some(0x82), "every 6-byte string whose first byte is the unknown marker 0x82");
-c15_smartptr!(c15_smartptr_any_n6, thorough, 8, None, "every byte string of length 6 (incl. the definition branch: DeserializationContext::store_object -> std HashMap insert)");
+c15_smartptr!(c15_smartptr_any_n6, probe, 8, None, "every byte string of length 6 (incl. the definition branch: DeserializationContext::store_object -> std HashMap insert)");
 
 zv_harness! {
     name: c15_complex_serializer_n12,
     prop: "C15",
-    tier: thorough,
+    tier: probe,
     unwind: 14,
     stubs: [alloc::fmt::format => crate::common::stubs::fmt_format],
     targets: "ComplexTypeSerializer::deserialize_from_bytes::<(u8, u32)> with metadata (type-id string + version) and deserialize_batch::<Option<u16>> without metadata",
@@ -840,9 +840,9 @@ macro_rules! c15_huffman_tree_hdr {
         }
     };
 }
-c15_huffman_tree_hdr!(c15_huffman_tree_hdr_n4_c1, thorough, 12, 4, 1);
-c15_huffman_tree_hdr!(c15_huffman_tree_hdr_n5_c1, thorough, 12, 5, 1);
-c15_huffman_tree_hdr!(c15_huffman_tree_hdr_n6_c1, thorough, 20, 6, 1);
+c15_huffman_tree_hdr!(c15_huffman_tree_hdr_n4_c1, probe, 12, 4, 1);
+c15_huffman_tree_hdr!(c15_huffman_tree_hdr_n5_c1, probe, 12, 5, 1);
+c15_huffman_tree_hdr!(c15_huffman_tree_hdr_n6_c1, probe, 20, 6, 1);
 c15_huffman_tree!(c15_huffman_tree_n1, quick, 4, 1);
-c15_huffman_tree!(c15_huffman_tree_n4, thorough, 12, 4);
-c15_huffman_tree!(c15_huffman_tree_n5, thorough, 12, 5);
+c15_huffman_tree!(c15_huffman_tree_n4, probe, 12, 4);
+c15_huffman_tree!(c15_huffman_tree_n5, probe, 12, 5);
